@@ -94,6 +94,10 @@ pub fn trace(args: &[String]) {
       5 => { // LCDC (incl. the display-enable bit): the line/mode schedule runs whatever it holds
              let v = *rng.pick(&[0x00u8, 0x11, 0x80, 0x91, 0xff, 0x7f]);
              let i = write_reg(&mut core, 0xff40, v); emit(&mut out, &mut core, "wlcdc", v as u64, i); },
+      6 => { // the other registers of the LCD page, the read-only LY among them: a write leaves the schedule alone
+             let a = *rng.pick(&[0xff44u16, 0xff44, 0xff42, 0xff43, 0xff47, 0xff48, 0xff49, 0xff4a, 0xff4b]);
+             let v = if rng.chance(1, 2) { rng.byte() } else { 0 };
+             let i = write_reg(&mut core, a, v); emit(&mut out, &mut core, "wother", ((a as u64) << 8) | v as u64, i); },
       3 | 4 => { let v = if rng.chance(1, 4) { rng.byte() } else { *rng.pick(&[0u8, 1, 143, 144, 145, 153, 154]) };
                  let i = write_reg(&mut core, 0xff45, v); emit(&mut out, &mut core, "wlyc", v as u64, i); },
       _ => { let b = if rng.chance(2, 3) { *rng.pick(&BATCHES) } else { 4 * (1 + rng.below(5000) as usize) };
